@@ -252,39 +252,61 @@ def lock_check(kinds, prop):
     return run
 
 
-def kani_float_axioms(prop):
-    """Thorough tier: the float axioms CBMC can decide are validated bit-precisely on real f64 operations by loop-free
-    Kani harnesses over full-domain symbolic inputs (complete, not bounded). A failing harness means an unsound AXIOM of
-    the machinery (undecided), never a violation of the property."""
+KANI_GROUPS = {
+    # group: (harness filter, what a success means, is a failure a violation of the property on real code?)
+    'float': ('float_axioms::', 'float axiom validated bit-precisely (kani-cbmc, loop-free full-domain harness)', False),
+    'stats': ('stats_real::', 'REAL CacheStats (stats.rs compiled in place): counters behave as the sequential AtomicU64 shim of rule R7 states, for every pair of counter values (kani-cbmc, loop-free full-domain harness)', True),
+    'policy': ('policy_real::', 'REAL eviction_policy.rs compiled in place: hand-written eq is structural equality (full domain); From<&str> maps each documented name to its own variant (concrete inputs, loops fully unwound)', True),
+}
+
+
+def kani_harnesses(prop, group):
+    """Thorough tier, second back end (Kani / CBMC). group float: the float axioms CBMC can decide, on real f64 operations (a
+    failing harness means an unsound AXIOM of the machinery: undecided, never a violation). groups stats / policy: harnesses on
+    the REAL source files of /repo, compiled in place through #[path] (nothing copied): a failing harness is a violation of the
+    property on the real code, reported with Kani's failed checks."""
+    filt, meaning, is_violation = KANI_GROUPS[group]
+
     def run(tier):
         res = dict(obligations={}, violations=[], undecided=[], functions=[], checker_cmds=[], trusted={}, notes=[])
         if tier != 'thorough':
-            res['notes'].append('float axioms ax_conv / ax_mul(sign, zero) / ax_age_factor / ax_lt_* / ax_zero_* / ax_consts are validated by Kani in the thorough tier; assumed in the quick tier')
+            res['notes'].append('kani group %s (%s) runs in the thorough tier only' % (group, meaning[:90]))
             return res
         env = dict(os.environ, CARGO_NET_OFFLINE='true', CARGO_TARGET_DIR=os.path.join(WORK, 'kani-target'))
-        cmd = ['cargo', 'kani']
-        res['checker_cmds'].append('cd /verif/kani && cargo kani  (kani 0.68 / cbmc)')
+        cmd = ['cargo', 'kani', '--harness', filt]
+        res['checker_cmds'].append('cd /verif/kani && cargo kani --harness %s  (kani 0.68 / cbmc)' % filt)
         try:
             p = subprocess.run(cmd, cwd=os.path.join(VERIF, 'kani'), env=env, capture_output=True, text=True, timeout=1800)
         except (subprocess.TimeoutExpired, OSError) as e:
-            res['undecided'].append('kani float-axiom harnesses did not run: %r' % (e,))
+            res['undecided'].append('kani harnesses (%s) did not run: %r' % (group, e))
             return res
-        cur = None
+        cur, failed_checks = None, []
         for line in p.stdout.splitlines():
             m = re.match(r'Checking harness (\S+?)\.\.\.', line)
             if m:
-                cur = m.group(1)
+                cur, failed_checks = m.group(1), []
+            mf = re.match(r'Failed Checks: (.*)$', line)
+            if mf:
+                failed_checks.append(mf.group(1))
             m2 = re.match(r'VERIFICATION:- (\w+)', line)
             if m2 and cur:
                 name = 'kani/%s' % cur
-                res['obligations'][name] = 'float axiom validated bit-precisely (kani-cbmc, loop-free full-domain harness)'
+                res['obligations'][name] = meaning
                 if m2.group(1) != 'SUCCESSFUL':
-                    res['undecided'].append('float axiom harness %s: %s (an axiom of prelude_float.rs is unsound)' % (cur, m2.group(1)))
+                    if is_violation:
+                        res['violations'].append(dict(obligation=name, message='kani: %s; failed checks: %s' % (m2.group(1), '; '.join(failed_checks)[:400]),
+                                                      site='/verif/kani/src (real /repo source through #[path])', rendered='\n'.join(p.stdout.splitlines()[-60:])))
+                    else:
+                        res['undecided'].append('float axiom harness %s: %s (an axiom of prelude_float.rs is unsound)' % (cur, m2.group(1)))
                 cur = None
         if not res['obligations']:
-            res['undecided'].append('kani produced no harness results: %s' % p.stderr[-300:])
+            res['undecided'].append('kani produced no harness results for %s: %s' % (group, (p.stderr or p.stdout)[-300:]))
         return res
     return run
+
+
+def kani_float_axioms(prop):
+    return kani_harnesses(prop, 'float')
 
 
 def pre_await_check(prop):
